@@ -40,6 +40,7 @@ type shOp struct {
 	Addr  uint16
 	Val   uint16 // unique per write
 	Pause time.Duration
+	Ctx   time.Duration // >0: the call is made with a context that expires after this long
 }
 
 type shScenario struct {
@@ -49,6 +50,7 @@ type shScenario struct {
 	ConnectAt time.Duration // <0: no Connect task
 	DevDelay  time.Duration // max device think time
 	Race      bool
+	Cancels   bool // some calls carry short context deadlines (stale replies follow: attribution oracles off, transport monitors on)
 }
 
 type shRec struct {
@@ -131,6 +133,17 @@ func genC14(t *Tape) *shScenario {
 		sc.ConnectAt = time.Duration(t.Choose(60000)) * time.Microsecond
 	}
 	sc.DevDelay = []time.Duration{0, 200 * time.Microsecond, 3 * time.Millisecond}[t.Choose(3)]
+	if t.Chance(1, 4) {
+		sc.Cancels = true
+		sc.DevDelay = 3 * time.Millisecond
+		for c := range sc.Callers {
+			for i := range sc.Callers[c] {
+				if t.Chance(1, 3) {
+					sc.Callers[c][i].Ctx = []time.Duration{100 * time.Microsecond, time.Millisecond, 4 * time.Millisecond}[t.Choose(3)]
+				}
+			}
+		}
+	}
 	return sc
 }
 
@@ -142,6 +155,7 @@ type shOutcome struct {
 	Hang     bool
 	OverStep bool
 	WireBad  string
+	IOBad    string
 	InitRegs [4]uint16
 }
 
@@ -160,6 +174,7 @@ func runShared(rc *RunCtx, sc *shScenario) *shOutcome {
 	// what is outstanding: request written, call not yet returned
 	var mon sync.Mutex
 	inflight := map[int]bool{}
+	active := 0                 // callers currently inside Do
 	byFrame := map[string]int{} // request bytes -> caller
 
 	startDevice := func(dev *Conn) {
@@ -259,6 +274,23 @@ func runShared(rc *RunCtx, sc *shScenario) *shOutcome {
 		cl.Name = fmt.Sprintf("p%d.cli", k)
 		dev.Name = fmt.Sprintf("p%d.dev", k)
 		if !sc.Race {
+			reading := 0
+			cl.OnReadBegin = func(c *Conn) {
+				mon.Lock()
+				defer mon.Unlock()
+				reading++
+				if reading > 1 && out.IOBad == "" {
+					out.IOBad = "two goroutines were reading from the client's transport at the same time"
+				}
+				if active == 0 && out.IOBad == "" {
+					out.IOBad = "the client's transport was read while no request call was in progress"
+				}
+			}
+			cl.OnReadEnd = func(c *Conn) {
+				mon.Lock()
+				reading--
+				mon.Unlock()
+			}
 			cl.OnWrite = func(c *Conn, data []byte) {
 				mon.Lock()
 				defer mon.Unlock()
@@ -352,7 +384,22 @@ func runShared(rc *RunCtx, sc *shScenario) *shOutcome {
 				}
 				rec := shRec{Caller: ci, Op: op, ReqTID: tid, RespTID: -1}
 				rec.Invoke = s.StepNow()
-				resp, err := doer.Do(context.Background(), req)
+				ctx, cancel := context.Background(), context.CancelFunc(func() {})
+				if op.Ctx > 0 {
+					ctx, cancel = context.WithTimeout(ctx, op.Ctx)
+				}
+				if !sc.Race {
+					mon.Lock()
+					active++
+					mon.Unlock()
+				}
+				resp, err := doer.Do(ctx, req)
+				cancel()
+				if !sc.Race {
+					mon.Lock()
+					active--
+					mon.Unlock()
+				}
 				rec.Return = s.StepNow()
 				if sc.Race {
 					_ = resp
@@ -466,6 +513,13 @@ func runC14(rc *RunCtx) {
 	}
 	if out.Overlap != "" {
 		rc.Violate("interleaved_exchange", base, "%s", out.Overlap)
+	}
+	if out.IOBad != "" {
+		rc.Violate("io_outside_call", base, "%s", out.IOBad)
+	}
+	if sc.Cancels {
+		rc.Probe("runs_with_expiring_contexts")
+		return // replies to abandoned requests arrive later: attribution and linearizability are not defined for these runs
 	}
 	if out.Foreign != "" {
 		rc.Violate("foreign_reply", base, "%s", out.Foreign)
